@@ -93,6 +93,13 @@ def single_scenarios():
             for tm in (None, [2], [3]):
                 n = "single:%s:hft_agent" % spec_name([ty, b, tm, None])
                 sc[n] = scn_for(n, [[ty, b, tm, None]], hft=True)
+    # hooks registered through simulator._add_event while a session is running (from the first after-execution call of the
+    # same event, which happens in step 2), for the next step of that session
+    for late in ([["market", True, [3], None], ["market", False, [3], None]], [["order", True, [3], None], ["cancel", False, [3], None]],
+                 [["execution", False, [3], None], ["session", False, [3], None]]):
+        n = "late_registration:%s" % "+".join("%s-%s" % (x[0], "before" if x[1] else "after") for x in late)
+        sc[n] = scn_for(n, [["execution", False, None, None]])
+        sc[n].cfg["E"].update(late_hooks=late, late_on="execution")
     sc["alter:order-before"] = scn_for("alter:order-before", [["order", True, None, None]], alter=["price", 97.5])
     return sc
 
